@@ -260,4 +260,33 @@ theorem marked_upper : ∀ (p : List Nat) (t : Tree) (e : Edit) (s s' : Tree) (o
             rcases hoe with hoe | hoe <;> omega
       · contradiction
 
+/-! ## Non-vacuity: a concrete tree and edit to which the three theorems apply non-trivially -/
+
+/-- A two-byte leaf without look-ahead. -/
+def leaf2 (sym : Nat) : Tree :=
+  .mk { (default : NodeData) with symbol := sym, size := { bytes := 2, extent := { row := 0, column := 2 } } } []
+
+/-- `root3` covers six bytes with three leaves `[0,2) [2,4) [4,6)`. -/
+def root3 : Tree :=
+  .mk { (default : NodeData) with symbol := 9, size := { bytes := 6, extent := { row := 0, column := 6 } } }
+    [leaf2 1, leaf2 2, leaf2 3]
+
+/-- Replace byte 3 (inside the middle leaf) by two bytes. -/
+def edit3 : Edit :=
+  { start := { bytes := 3, extent := { row := 0, column := 3 } }
+    old_end := { bytes := 4, extent := { row := 0, column := 4 } }
+    new_end := { bytes := 5, extent := { row := 0, column := 5 } } }
+
+/-- The outer leaves are returned as the very same values (`unmarked_shared` applies: they are
+unmarked), the middle one is rebuilt and marked, its offset 2 satisfies both bounds
+(`3 ≤ 2 + 2 + 0`, `2 ≤ 4`), and `root3` has no column-dependent node. -/
+example :
+    subtreeAt (editTree root3 edit3) [0] = some (leaf2 1) ∧
+    subtreeAt (editTree root3 edit3) [2] = some (leaf2 3) ∧
+    (∃ s', subtreeAt (editTree root3 edit3) [1] = some s' ∧ s'.data.hasChanges = true ∧
+      s'.data.size.bytes = 3) ∧
+    subtreeAt root3 [1] = some (leaf2 2) ∧ offsetAt root3 [1] = some 2 ∧ noCol root3 = true ∧
+    edit3.start.bytes ≤ edit3.old_end.bytes :=
+  ⟨by rfl, by rfl, ⟨_, by rfl, by rfl, by rfl⟩, by rfl, by rfl, by rfl, by decide⟩
+
 end TsVerif.C12
